@@ -40,21 +40,21 @@ theorem needed_eq_encSize (w : World) (srcs : List Str) :
 
 /-- **C09 (accepted)**: every list shorter than the tape is accepted: status 0, one write — the
     complete archive (C03's encoding of every source), 21504 bytes. -/
-theorem accepted (w : World) (verbose : Bool) (archive : Str) (srcs : List Str) (hr : AllReadable w srcs)
+theorem accepted (w : World) (verbose : Bool) (archive : Str) (srcs : List Str) (hr : AllReadable w archive srcs)
     (hfit : Spec.K7.encSize (srcs.map (C03.specFile w)) < 21504) :
     (inject w verbose archive srcs).status = .ret 0
       ∧ (inject w verbose archive srcs).writes = [(archive, Spec.K7.tape (srcs.map (C03.specFile w)))]
       ∧ (inject w verbose archive srcs).mkdirs = [] := by
   have hfit' : totalLen (allRaw w srcs) < Gen.Tape.tapeSize := by rw [needed_eq_encSize]; exact hfit
   refine ⟨?_, (C03.created_tape_is_k7 w verbose archive srcs hr hfit').1, ?_⟩
-  · obtain ⟨t', e, _⟩ := injectLoop_ok w srcs blank { verbose := verbose } [] [] hr written_blank (by simpa using hfit')
+  · obtain ⟨t', e, _⟩ := injectLoop_ok w archive srcs blank { verbose := verbose } [] [] hr written_blank (by simpa using hfit')
     simp [inject, e]
-  · obtain ⟨t', e, _⟩ := injectLoop_ok w srcs blank { verbose := verbose } [] [] hr written_blank (by simpa using hfit')
+  · obtain ⟨t', e, _⟩ := injectLoop_ok w archive srcs blank { verbose := verbose } [] [] hr written_blank (by simpa using hfit')
     simp [inject, e]
 
 /-- **C09 (refused)**: every list at least as long as the tape is refused with status 1 and the
     diagnostic, and nothing at all is written (a file already at the target path keeps its bytes). -/
-theorem refused (w : World) (verbose : Bool) (archive : Str) (srcs : List Str) (hr : AllReadable w srcs)
+theorem refused (w : World) (verbose : Bool) (archive : Str) (srcs : List Str) (hr : AllReadable w archive srcs)
     (hbig : ¬ Spec.K7.encSize (srcs.map (C03.specFile w)) < 21504) :
     (inject w verbose archive srcs).status = .ret 1
       ∧ (inject w verbose archive srcs).writes = []
@@ -64,11 +64,11 @@ theorem refused (w : World) (verbose : Bool) (archive : Str) (srcs : List Str) (
     intro h; subst h; simp [Spec.K7.encSize] at hbig
   have hbig' : ¬ (([] : Bytes).length + totalLen (allRaw w srcs) < Gen.Tape.tapeSize) := by
     rw [needed_eq_encSize, tape_size]; simpa using hbig
-  obtain ⟨out', e⟩ := injectLoop_overflow w srcs blank { verbose := verbose } [] [] hr written_blank hne hbig'
+  obtain ⟨out', e⟩ := injectLoop_overflow w archive srcs blank { verbose := verbose } [] [] hr written_blank hne hbig'
   simp [inject, e]
 
 /-- **C09 (capacity is exact)** -/
-theorem accepted_iff (w : World) (verbose : Bool) (archive : Str) (srcs : List Str) (hr : AllReadable w srcs) :
+theorem accepted_iff (w : World) (verbose : Bool) (archive : Str) (srcs : List Str) (hr : AllReadable w archive srcs) :
     (inject w verbose archive srcs).writes ≠ [] ↔ Spec.K7.encSize (srcs.map (C03.specFile w)) < 21504 := by
   constructor
   · intro h
@@ -82,9 +82,9 @@ theorem accepted_iff (w : World) (verbose : Bool) (archive : Str) (srcs : List S
 theorem missing_source (w : World) (verbose : Bool) (archive : Str) (srcs : List Str)
     (hm : ∃ s ∈ srcs, w (classify s).2 = none) :
     (inject w verbose archive srcs).status ≠ .ret 0 ∧ (inject w verbose archive srcs).writes = [] := by
-  have := injectLoop_missing w srcs blank { verbose := verbose } [] hm
+  have := injectLoop_missing w archive srcs blank { verbose := verbose } [] hm
   unfold inject
-  generalize injectLoop w blank { verbose := verbose } [] srcs = r at this ⊢
+  generalize injectLoop w archive blank { verbose := verbose } [] srcs = r at this ⊢
   obtain ⟨st, out, t⟩ := r
   simp only at this
   obtain ⟨h1, h2⟩ := this
@@ -92,7 +92,7 @@ theorem missing_source (w : World) (verbose : Bool) (archive : Str) (srcs : List
   exact ⟨h2, rfl⟩
 
 /-- never a truncated or oversized tape: whatever happens, at most one write, of exactly 21504 bytes -/
-theorem never_partial (w : World) (verbose : Bool) (archive : Str) (srcs : List Str) (hr : AllReadable w srcs) :
+theorem never_partial (w : World) (verbose : Bool) (archive : Str) (srcs : List Str) (hr : AllReadable w archive srcs) :
     (inject w verbose archive srcs).writes = [] ∨
     ∃ tape, (inject w verbose archive srcs).writes = [(archive, tape)] ∧ tape.length = 21504 := by
   by_cases h : Spec.K7.encSize (srcs.map (C03.specFile w)) < 21504
